@@ -311,15 +311,22 @@ structure Env where
   /-- `request.namespaces` in handler order -/
   nsOrder : List Ns
 
+/-- `hooks_namespace` on one config entry of the `hooks` namespace -/
+def hookOfEntry (attrs : Cb → Attrs) : Entry → Option (Point × AHook)
+  | .hook p v => hooksNamespace attrs p v
+  | _ => Option.none
+
+/-- `request_namespace` on one config entry: `setattr(request, 'error_response', v)` -/
+def setErrorResponse (r : Req) : Entry → Req
+  | .errorResponse cb => { r with errorResponse := some cb }
+  | _ => r
+
 /-- one namespace handler over its share of the config -/
 def runNamespace (env : Env) (config : List Entry) (ns : Ns) (r : Req) : Option Req :=
   let mine := config.filter (·.ns = ns)
   match ns with
-  | .hooks =>
-    some { r with hooks := r.hooks ++ mine.filterMap (fun e => match e with
-                              | .hook p v => hooksNamespace env.attrs p v | _ => Option.none) }
-  | .request =>
-    some (mine.foldl (fun r e => match e with | .errorResponse cb => { r with errorResponse := some cb } | _ => r) r)
+  | .hooks => some { r with hooks := r.hooks ++ mine.filterMap (hookOfEntry env.attrs) }
+  | .request => some (mine.foldl setErrorResponse r)
   | .toolbox b =>
     let m := toolmapOf b mine
     exitToolbox env.attrs (env.toolboxes b) m { r with toolmaps := r.toolmaps ++ [(b, m)] }
